@@ -703,11 +703,25 @@ META = {
                   "host API eval_function frozen and unfrozen, #[starlark_module] natives and native methods of 19 signature shapes) with "
                   "exact values and exact error classes. The hypotheses are discharged for parsed programs: every parameter list accepted by the "
                   "model of DefParams::unpack is well-formed and names passing the duplicate check of CallArgsUnpack::unpack are distinct "
-                  "(C08_def_unpack_wf, C08_call_unpack_nodup, C08_parsed_collect_eq_spec). Not proved: the converse (every well-formed "
-                  "signature is accepted - checked by the tie on every enumerated signature only), and the models of the two static checks "
-                  "are tied to the parser only in that direction.",
-    "level_note": "Trusted: Coq kernel; extraction (ExtrOcamlBasic) + ocaml/bind_driver.ml; harness bin bind; ParametersSpecBuilder modelled by "
-                  "its result on well-formed signatures; *seq / **map modelled as lists; natives with only positional-only parameters use a "
+                  "(C08_def_unpack_wf, C08_call_unpack_nodup, C08_parsed_collect_eq_spec), and the converse is proved too: the image of the "
+                  "DefParams::unpack model is exactly the well-formed signatures with no required positional parameter after a defaulted one "
+                  "and no default on *args/**kwargs (C08_def_unpack_complete with the explicit witness render_sig, C08_def_unpack_image), and "
+                  "the named-argument duplicate check accepts exactly the duplicate-free lists (C08_names_unique_iff). ParametersSpecBuilder is "
+                  "now modelled as a step-by-step state machine (required/optional/defaulted -> add, args, kwargs, "
+                  "no_more_positional_only_args, no_more_positional_args, finish, every assert! a rejection): running the calls that "
+                  "InstrDefImpl::run_with_args makes for a well-formed signature and then finish yields exactly build_spec, with no assert "
+                  "firing (C08_builder_builds_spec), and the asserts fire on exactly the call sequences that leave the order "
+                  "P* [/ P*] [(*args|*) P*] [**kwargs] or repeat a keyword-passable name (C08_builder_order_checked, "
+                  "C08_builder_methods_order_checked). The call model is extended with `*seq` not iterable and `**map` not a dict, raised at "
+                  "the code's positions (before / after the positional-named clash check); the extended binder still equals the extended call "
+                  "rule and coincides with the old binder on well-typed calls (C08_collect_x_eq_spec, C08_collect_x_embed). Remaining partial "
+                  "items: the builder, static-check and ill-typed-operand models are tied to /repo only through what the existing tie "
+                  "already exercises (every enumerated def signature, parser acceptance, native signatures); the two purely rejecting parser "
+                  "checks (`/` first, `*` last) are outside the DefParams::unpack model (render_sig never produces such lists); the tie does "
+                  "not yet generate non-iterable `*seq` / non-dict `**map` calls.",
+    "level_note": "Trusted: Coq kernel; extraction (ExtrOcamlBasic) + ocaml/bind_driver.ml; harness bin bind; the literal names '*args'/'**kwargs' the builder "
+                  "stores for variadic parameters are modelled by the declared names (never read by the binder) and its SymbolMap `names` as an "
+                  "insertion-ordered association list; *seq / **map modelled as lists or a type-error marker; natives with only positional-only parameters use a "
                   "different generated parser (parse_positional*), for them values and success/failure are compared but not the error class. "
                   "The tie is differential testing (enumerated strata + random), not exhaustive over the property's full finite space.",
     "technique": "Coq refinement proof (slot-array binder = name-keyed call rule) via a simulation relation; extracted model and specification "
